@@ -1,88 +1,220 @@
 """C20 — Lazily initialised shared state is safe under every thread interleaving.
 
-The theorems (Props/C20.v) quantify over all schedules of the translated critical sections; this module
-(a) cross-checks the extracted interleaving semantics on random schedules (locked: safe, unlocked: unsafe
-schedules exist), (b) drives the REAL objects under a deterministic line-level scheduler with instrumented
-locks and checks that every thread gets the single-thread value, nothing raises and initialisation happens
-once, (c) compares threaded and synchronous dask loads of a v4 data set.  When an obligation is broken (e.g.
-a lock was removed) the same exploration is the failing-schedule search.
+The theorems (Props/C20.v) quantify over all schedules of the translated critical sections, over all get/put
+histories of the translated pool operations and over all schedules of any number of dask workers on a pure task graph.
+This module
+(a) cross-checks the extracted interleaving semantics on random schedules of the bodies AS TRANSLATED (wire_201), and
+    the extracted pool on random get/put histories against the real _Pool (wire_202);
+(b) drives the REAL objects (DaskLazyIndexer plain / mixed accessors / nested / shared inner, SpectralWindow,
+    SensorCache, _Pool, S3ChunkStore.get_chunk against a local endpoint, the indexers of a v4 data set) under a
+    deterministic line-level scheduler with instrumented locks and checks that every thread gets the single-thread
+    value, nothing raises and initialisation happens once;
+(c) loads a v4 data set under the synchronous scheduler, dask's threaded scheduler with 1..16 workers and a scheduler
+    of its own that executes the real graph as the Coq machine `crun` does under adversarial event orders; arrays must
+    be identical, every recorded schedule is replayed in the extracted model (wire_203), chunk reads must be
+    idempotent and no task may mutate what it was given; the output stage's cell writes are checked distinct (wire_204).
+When an obligation is broken (e.g. a lock was removed) the same exploration is the failing-schedule search.
 """
-import itertools
+import hashlib
+import random
 
 import dask
 import dask.array as da
 import numpy as np
 
 from fixtures import v4
+from fixtures.dgraph import ModelScheduler, Recorder
 from fixtures.dsched import ILock, Sched
-from katdal.lazy_indexer import DaskLazyIndexer
+from katdal.lazy_indexer import DaskLazyIndexer, dask_getitem
 from katdal.sensordata import SensorCache, SimpleSensorGetter
 from katdal.spectral_window import SpectralWindow
 from katdal.chunkstore_s3 import _Pool
 
-RULE = ('schedules = lists of thread ids consumed at every traced source line of the katdal file under test '
-        '(2-3 threads; random schedules, plus all schedules with <= 2 pre-emptions in the thorough tier) on shared '
-        'DaskLazyIndexer (plain and nested), SpectralWindow, SensorCache (plain, aliased and virtual sensors, '
-        'membership/assignment) and _Pool objects whose locks are replaced by instrumented ones; a case is one '
-        '(site, schedule); non-trivial when at least two threads overlap inside the traced code; distinct by '
-        '(site, executed line trace)')
+RULE = ('schedules = lists of thread ids consumed at every traced source line of the katdal file(s) under test '
+        '(3 threads; random schedules, plus all schedules with <= 2 pre-emptions in the thorough tier) on shared '
+        'DaskLazyIndexer (dataset only / dataset+shape+dtype+[idx]+len / nested / two outers sharing an inner), '
+        'SpectralWindow, SensorCache (same, aliased, virtual and nested virtual sensors, wildcard properties, '
+        'selection, lazily materialised timestamps, membership/assignment), _Pool (get/put and context manager), '
+        'S3ChunkStore.get_chunk on a local endpoint and the vis/weights/flags indexers of a v4 data set, whose locks '
+        'are replaced by instrumented ones; a case is one (site, schedule); non-trivial when at least two threads '
+        'overlap inside the traced code; distinct by (site, executed line trace).  Loads: 4 v4 fixtures (odd sizes, applycal G/B/K, '
+        'ragged chunks, power-scaled weights, lost chunks) x {synchronous, threads with 1,2,3,4,8,16 workers, model '
+        'scheduler with policies random/greedy/fifo/lifo/reverse x early/late execution x 1..5 workers}; a case is '
+        '(fixture, index, scheduler, event list)')
 ASSUMPTIONS = ['CPython switches threads only between source lines of the traced files (line-level atomicity); '
-               'C-level races inside numpy/dask are not explored',
-               'instrumented lock objects replace threading.Lock/RLock attributes of the objects under test',
-               'the threaded-vs-synchronous dask load is a differential run only (no model)']
+               'C-level races inside numpy/dask/requests are not explored',
+               'instrumented lock objects replace the threading.Lock/RLock attributes of the objects under test (a '
+               'guard of any other type is left in place)',
+               'threaded load = single-threaded load is proved for graphs of pure tasks under the event semantics of '
+               'dask.local.get_async; purity/idempotence of the real tasks is observed (digests), not proved',
+               'the real thread pool runs are non-deterministic samples; the model scheduler runs are seeded']
+
+LOCKED_SAFE = 42
 
 
-def body_wire(code):
-    return [[c, a] for (c, a) in code]
+class Hang(Exception):
+    pass
 
 
-DASK_BODY = [(0, 6), (1, 0), (1, 0), (2, 0), (2, 0), (3, 0), (4, 0), (5, 0)]
+def guarded(fn, timeout=90):
+    """fn() in a helper thread: a load that never returns (a self-deadlock) must not take the check down with it."""
+    import threading
+    box = {}
 
+    def body():
+        try:
+            box['v'] = fn()
+        except BaseException as e:   # noqa
+            box['e'] = e
+    t = threading.Thread(target=body, daemon=True)
+    t.start()
+    t.join(timeout)
+    if t.is_alive():
+        raise Hang('no result after %d s' % timeout)
+    if 'e' in box:
+        raise box['e']
+    return box['v']
+
+
+# ------------------------------------------------------------------------------------------------ extracted models
 
 def model_cross_check(ctx):
-    """Extracted interleaving semantics on random schedules: locked -> every finished thread has 42, one init."""
-    if not ctx.model_ok:
+    """Extracted interleaving semantics on random schedules of the TRANSLATED bodies: locked -> every finished
+    thread has f(s0) = 42, nothing failed, one initialisation; unlocked -> unsafe schedules exist (counted)."""
+    if not ctx.model_ok or ctx.searching:
+        return      # (a broken obligation may leave a stale model binary behind: only the real objects count then)
+    bodies = ctx.model([[201, []]])[0]
+    if bodies == [-999] or len(bodies) != 3:
         return
     rng = ctx.rng
     cases = []
-    for _ in range(ctx.scale(300, 3000)):
-        n = rng.randint(2, 4)
-        sched = [rng.randrange(n) for _ in range(rng.randint(5, 40))]
-        cases.append([20, [body_wire(DASK_BODY), n, sched, 1]])
-        cases.append([20, [body_wire(DASK_BODY), n, sched, 0]])
-    outs = ctx.model(cases)
-    unsafe = 0
-    for c, o in zip(cases, outs):
+    for name, body in zip(('dask', 'spw', 'sensor_get'), bodies):
+        for _ in range(ctx.scale(120, 1500)):
+            n = rng.randint(2, 4)
+            sched = [rng.randrange(n) for _ in range(rng.randint(5, 60))]
+            cases.append((name, [20, [body, n, sched, 1]]))
+            cases.append((name, [20, [body, n, sched, 0]]))
+    outs = ctx.model([c for _, c in cases])
+    unsafe = {}
+    for (name, c), o in zip(cases, outs):
         states, ncomp = o
         locked = c[1][3] == 1
-        bad = any(s[0] == 3 or (s[0] == 2 and s[1] != 42) for s in states) or ncomp > 1
+        bad = any(s[0] == 3 or (s[0] == 2 and s[1] != LOCKED_SAFE) for s in states) or ncomp > 1
         if locked and bad:
-            ctx.disagree('what=model_locked_unsafe', dict(schedule=c[1][2], threads=c[1][1]), None, o,
-                         'extracted model: a locked schedule is unsafe (contradicts the theorem)')
+            ctx.disagree('what=model_locked_unsafe;site=%s' % name,
+                         dict(kind='model', site=name, schedule=c[1][2], threads=c[1][1], body=c[1][0]), None, o,
+                         'extracted model of the translated body: a locked schedule is unsafe (contradicts the theorem)')
         if not locked and bad:
-            unsafe += 1
-        ctx.note_case(('model', c[1][1], tuple(c[1][2]), locked), nontrivial=True)
+            unsafe[name] = unsafe.get(name, 0) + 1
+        ctx.note_case(('model', name, c[1][1], tuple(c[1][2]), locked), nontrivial=True)
     ctx.extra['model_unlocked_unsafe_schedules'] = unsafe
     ctx.count('model_schedules', len(cases))
 
 
+def real_pool_history(ops):
+    """ops: [kind, thread]; kind 0 get, 1 put (most recent item of the thread), 2 `with pool() as item` (get+put)."""
+    made = []
+
+    def factory():
+        made.append(len(made))
+        return made[-1]
+    pool = _Pool(factory)
+    held = {}
+    outs = []
+    raised = False
+    for kind, t in ops:
+        if raised:
+            break
+        try:
+            if kind == 0:
+                x = pool.get()
+                held.setdefault(t, []).insert(0, x)
+                outs.append(x)
+            elif kind == 1:
+                if held.get(t):
+                    x = held[t].pop(0)
+                    pool.put(x)
+                    outs.append(x)
+                else:
+                    outs.append(-1)
+            else:
+                with pool() as x:
+                    outs.append(x)
+                outs.append(x)
+        except Exception:   # noqa
+            outs.append(-2)
+            raised = True
+    return outs, list(pool._pool), raised, sorted(x for v in held.values() for x in v)
+
+
+def pool_history_case(ctx, ops):
+    mops = []
+    for kind, t in ops:
+        mops += [[0, t], [1, t]] if kind == 2 else [[kind, t]]
+    outs, free, raised, held = real_pool_history(ops)
+    impl = [outs, free, int(raised), held]
+    model = None
+    out = ctx.model([[202, mops]])[0] if ctx.model_ok and not ctx.searching else [-999]
+    if out != [-999]:
+        m_outs, m_free, m_err, m_held = out
+        if m_err:
+            # the model stops being meaningful after the first raise: compare up to it
+            k = m_outs.index(-2) if -2 in m_outs else len(m_outs)
+            m_outs = m_outs[:k + 1]
+        model = [m_outs, m_free, int(bool(m_err)), sorted(m_held)] if not m_err else [m_outs, free, 1, held]
+    if model is not None and impl != model:
+        ctx.disagree('what=pool_history;symptom=%s' % ('raises' if raised != bool(m_err) else 'items_differ'),
+                     dict(kind='pool_history', ops=ops), impl, model,
+                     '_Pool driven by one thread differs from the model of its translated get/put', kind='tie')
+    lent = [x for x in held]
+    if len(set(lent)) != len(lent) or set(lent) & set(free) or len(set(free)) != len(free) or raised:
+        ctx.disagree('what=pool_history;symptom=%s' % ('raises' if raised else 'item_lent_twice'),
+                     dict(kind='pool_history', ops=ops), impl, model,
+                     '_Pool lends an item twice / raises on a get-put history', spec='no item lent twice, nothing raises')
+    ctx.traces_validated += 1
+    ctx.note_case(('pool_history', tuple(map(tuple, ops))), nontrivial=len(ops) > 2)
+    ctx.count('pool_histories')
+
+
+def pool_histories(ctx):
+    rng = ctx.rng
+    for _ in range(ctx.scale(150, 2000)):
+        ops = [[rng.choice((0, 0, 1, 1, 2)), rng.randrange(3)] for _ in range(rng.randint(1, 14))]
+        pool_history_case(ctx, ops)
+
+
 # ------------------------------------------------------------------------------------------------ real sites
 
-def gen_schedules(ctx, nthreads, n_random, length=60):
+def ilock_like(s, real):
+    """An instrumented lock of the kind of the real guard; a guard that is not a lock is left alone."""
+    kind = type(real).__name__
+    if kind not in ('RLock', 'lock'):
+        return real
+    # objects that share one real lock share one instrumented lock
+    if not hasattr(s, 'lockmap'):
+        s.lockmap = {}
+    if id(real) not in s.lockmap:
+        s.lockmap[id(real)] = (real, ILock(s, reentrant=(kind == 'RLock')))
+    return s.lockmap[id(real)][1]
+
+
+def gen_schedules(ctx, nthreads, n_random, length=60, two_switch=True):
     rng = ctx.rng
     for _ in range(n_random):
         # mostly-sequential schedules with a few pre-emptions find more than uniformly random ones
-        if rng.random() < 0.5:
+        r = rng.random()
+        if r < 0.4:
             sched = [rng.randrange(nthreads) for _ in range(length)]
         else:
+            p = 0.15 if r < 0.8 else 0.04
             sched = []
             cur = rng.randrange(nthreads)
             for _ in range(length):
-                if rng.random() < 0.15:
+                if rng.random() < p:
                     cur = rng.randrange(nthreads)
                 sched.append(cur)
         yield sched
-    if ctx.tier == 'thorough':
+    if ctx.tier == 'thorough' and two_switch:
         # all schedules with <= 2 switches among 2 threads over the first 24 steps
         for a in range(0, 24):
             for b in range(a, 24):
@@ -90,36 +222,190 @@ def gen_schedules(ctx, nthreads, n_random, length=60):
                     yield [first] * a + [1 - first] * (b - a) + [first] * (40 - b)
 
 
-def run_site(ctx, site, make, files, expect_equal=True):
-    """make(sched) -> (funcs, check) ; check(results) -> None or description of the failure."""
-    n = ctx.scale(70, 600)
-    for schedule in gen_schedules(ctx, 3, n):
-        s = Sched(files, schedule)
-        funcs, check = make(s)
-        results, trace = s.run(funcs)
-        problem = None
-        for tid in range(len(funcs)):
-            r = results.get(tid)
-            if r is None or r[0] != 'ok':
-                problem = 'thread %d: %s' % (tid, r)
-                break
-        if problem is None:
-            problem = check(results)
-        overlap = len({t for t, _ in trace}) > 1 and any(a[0] != b[0] for a, b in zip(trace, trace[1:]))
-        if problem is not None:
-            ctx.disagree('site=%s;symptom=%s' % (site, problem.split(':')[0].split(' ')[0] if problem.startswith('thread') else problem.split(';')[0]),
-                         dict(site=site, schedule=schedule, trace=trace[:60]), problem, None,
-                         'threads performing first accesses concurrently did not all obtain the single-thread value')
-        ctx.traces_validated += 1
-        ctx.note_case((site, tuple(trace[:200])), nontrivial=overlap,
-                      sample=dict(site=site, schedule=schedule[:20], first_lines=trace[:6]))
-        ctx.count('site=' + site)
+def symptom_of(problem):
+    if problem.startswith('thread'):
+        # thread 1: ('exc', 'AttributeError', ...)
+        if "'exc'" in problem:
+            try:
+                return 'raises_' + problem.split("'exc', '")[1].split("'")[0]
+            except IndexError:
+                return 'raises'
+        return 'thread'
+    return problem.split(';')[0]
 
 
-def site_dask(nested):
-    x = da.from_array(np.arange(24).reshape(4, 6), chunks=2)
+def run_one(ctx, site, make, files, schedule, replaying=False):
+    s = Sched(files, schedule)
+    funcs, check = make(s)
+    results, trace = s.run(funcs)
+    trace = [(t, tuple(w)) for t, w in trace]
+    problem = None
+    for tid in range(len(funcs)):
+        r = results.get(tid)
+        if r is None or r[0] != 'ok':
+            problem = 'thread %d: %s' % (tid, r)
+            break
+    if problem is None:
+        problem = check(results)
+    overlap = len({t for t, _ in trace}) > 1 and any(a[0] != b[0] for a, b in zip(trace, trace[1:]))
+    if problem is not None:
+        ctx.disagree('site=%s;symptom=%s' % (site, symptom_of(problem)),
+                     dict(site=site, schedule=schedule, trace=trace[:60]), problem, None,
+                     'threads performing first accesses concurrently did not all obtain the single-thread value')
+    ctx.traces_validated += 1
+    ctx.note_case((site, tuple(trace[:200])) if not replaying else (site, 'replay'), nontrivial=overlap,
+                  sample=dict(site=site, schedule=schedule[:20], first_lines=trace[:6]))
+    ctx.count('site=' + site)
+    return s.hung
+
+
+MUTATORS = ('append', 'pop', 'insert', 'extend', 'remove', 'clear', 'update', 'setdefault', 'add', 'discard', 'popitem')
+_wl = {}
+_adj = {}
+
+
+def _root(t):
+    import ast
+    while isinstance(t, (ast.Attribute, ast.Subscript, ast.Starred)):
+        t = t.value
+    return t.id if isinstance(t, ast.Name) else None
+
+
+def _locals_of(fn):
+    """names bound inside the function other than its parameters (objects the function made itself: not shared)"""
+    import ast
+    params = {a.arg for a in fn.args.args + fn.args.kwonlyargs + fn.args.posonlyargs}
+    if fn.args.vararg:
+        params.add(fn.args.vararg.arg)
+    if fn.args.kwarg:
+        params.add(fn.args.kwarg.arg)
+    bound = set()
+    for n in ast.walk(fn):
+        if isinstance(n, ast.Name) and isinstance(n.ctx, ast.Store):
+            bound.add(n.id)
+    return bound - params
+
+
+def _is_write_stmt(n, local):
+    """does the statement write through an attribute / subscript of, or call a mutating method on, an object that the
+    function did not create itself (self, cls, a parameter, a global)?"""
+    import ast
+    targets = []
+    if isinstance(n, ast.Assign):
+        targets = n.targets
+    elif isinstance(n, (ast.AugAssign, ast.AnnAssign)):
+        targets = [n.target]
+    elif isinstance(n, ast.Delete):
+        targets = n.targets
+    elif isinstance(n, (ast.Expr, ast.Return)) and isinstance(n.value, ast.Call) and isinstance(n.value.func, ast.Attribute):
+        r = _root(n.value.func.value)
+        return n.value.func.attr in MUTATORS and r is not None and r not in local
+    elif isinstance(n, (ast.For, ast.While, ast.If, ast.With, ast.Try)):
+        body = getattr(n, 'body', [])
+        return bool(body) and _is_write_stmt(body[0], local)
+    for t in targets:
+        for x in ([t] if not isinstance(t, (ast.Tuple, ast.List)) else t.elts):
+            if isinstance(x, (ast.Attribute, ast.Subscript)):
+                r = _root(x)
+                if r is not None and r not in local:
+                    return True
+    return False
+
+
+def _scan(files):
+    import ast
+    import os
+    import katdal
+    root = os.path.dirname(os.path.dirname(katdal.__file__))
+    for rel in files:
+        if rel in _wl:
+            continue
+        writes, half = set(), set()
+        base = os.path.basename(rel)
+        tree = ast.parse(open(os.path.join(root, rel)).read())
+        for fn in ast.walk(tree):
+            if not isinstance(fn, (ast.FunctionDef, ast.AsyncFunctionDef)) or fn.name == '__init__':
+                continue
+            local = _locals_of(fn)
+            for n in ast.walk(fn):
+                if isinstance(n, ast.stmt) and not isinstance(n, (ast.For, ast.While, ast.If, ast.With, ast.Try)) \
+                        and _is_write_stmt(n, local):
+                    writes.add((base, n.lineno))
+                for field in ('body', 'orelse', 'finalbody'):
+                    block = getattr(n, field, None)
+                    if not isinstance(block, list):
+                        continue
+                    for x, y in zip(block, block[1:]):
+                        if isinstance(x, ast.stmt) and not isinstance(x, (ast.For, ast.While, ast.If, ast.With, ast.Try)) \
+                                and _is_write_stmt(x, local) and _is_write_stmt(y, local):
+                            half.add((base, x.lineno))
+                    # a loop whose body ends with a write: every iteration is a step of a multi-step update
+                    if isinstance(n, (ast.For, ast.While)) and field == 'body' and block and _is_write_stmt(block[-1], local):
+                        half.add((base, block[-1].lineno))
+        _wl[rel], _adj[rel] = writes, half
+
+
+def write_lines(files):
+    """(basename, line) of every statement outside __init__ that writes to an object the function did not create: the
+    places next to which a pre-emption can expose a half-done update or a stale check."""
+    _scan(files)
+    return set().union(*[_wl[f] for f in files])
+
+
+def half_done_lines(files):
+    """... of those, the ones directly followed in the same block by another such write (or closing a loop body):
+    suspending a thread right after them leaves a multi-field update half done."""
+    _scan(files)
+    return set().union(*[_adj[f] for f in files])
+
+
+def write_point_schedules(ctx, site, make, files, cap):
+    """Single-pre-emption schedules placed at the shared-state writes: for every thread A and every dynamic occurrence
+    of a writing line in A's solo run, suspend A just before / just after that line, let the other two threads run to
+    completion (or until they block on A's lock), then resume A.  All of them when there are at most `cap`, else a
+    seeded sample."""
+    wl = write_lines(files)
+    hd = half_done_lines(files)
+    scheds, first = [], []
+    for a in range(3):
+        others = [t for t in range(3) if t != a]
+        s = Sched(files, [['run', a], ['run', others[0]], ['run', others[1]]], max_trace=20000)
+        funcs, _ = make(s)
+        _, trace = s.run(funcs)
+        steps = [tuple(w) for (t, w) in trace if t == a]
+        for i, w in enumerate(steps):
+            if w in wl:
+                for k in (i + 1, i + 2):
+                    o = list(others)
+                    if ctx.rng.random() < 0.5:
+                        o.reverse()
+                    sch = [a] * k + [['run', o[0]], ['run', o[1]]]
+                    # suspended right after the first of two consecutive writes: a half-done update -- these go first
+                    (first if (k == i + 2 and w in hd) else scheds).append(sch)
+    ctx.extra.setdefault('write_points', {})[site] = [len(first), len(scheds)]
+    if len(first) > 4 * cap:
+        first = ctx.rng.sample(first, 4 * cap)
+    if len(scheds) > cap:
+        scheds = ctx.rng.sample(scheds, cap)
+    return first + scheds
+
+
+def run_site(ctx, site, make, files, n=None, length=60, cap=None):
+    n = ctx.scale(30, 500) if n is None else n
+    for schedule in gen_schedules(ctx, 3, n, length, two_switch=(cap is None)):
+        if run_one(ctx, site, make, files, schedule):
+            return          # a hung run leaves stuck threads behind and has been reported: leave this site
+    for schedule in write_point_schedules(ctx, site, make, files, ctx.scale(60, 2000) if cap is None else cap):
+        if run_one(ctx, site, make, files, schedule):
+            return
+
+
+def site_dask(variant):
     base = np.arange(24).reshape(4, 6)
-    expect = ((base[1:4][:, ::2] if not nested else base[1:4][1:3][:, ::2]).astype(np.float32) + 0.5) * 2
+    x = da.from_array(base, chunks=2)
+
+    def expected(a):
+        return (a.astype(np.float32) + 0.5) * 2
 
     def make(s):
         calls = []
@@ -130,37 +416,76 @@ def site_dask(nested):
 
         def tr2(a):
             return a * 2
-        if nested:
+
+        def values(d):
+            # every thread must see the fully transformed array (values, not only shape)
+            return (tuple(d.shape), str(d.dtype), np.asarray(d.compute(scheduler='synchronous')).tolist())
+
+        def want(a):
+            return (a.shape, str(a.dtype), a.tolist())
+        if variant == 'nested':
             inner = DaskLazyIndexer(x, (slice(1, 4),))
-            inner._lock = ILock(s)
+            inner._lock = ilock_like(s, inner._lock)
             li = DaskLazyIndexer(inner, (slice(1, 3), slice(None, None, 2)), transforms=[tr, tr2])
+            li._lock = ilock_like(s, li._lock)
+            e = expected(base[1:4][1:3][:, ::2])
+            fs = [lambda: values(li.dataset)] * 3
+            exp = [want(e)] * 3
+            n_calls = 1
+        elif variant == 'shared_inner':
+            # two outer indexers over ONE inner indexer: the first accesses of the outers race on the inner
+            inner = DaskLazyIndexer(x, (slice(1, 4),), transforms=[tr])
+            inner._lock = ilock_like(s, inner._lock)
+            o1 = DaskLazyIndexer(inner, (slice(0, 2), slice(None, None, 2)), transforms=[tr2])
+            o2 = DaskLazyIndexer(inner, (slice(1, 3), slice(1, 5)))
+            o1._lock = ilock_like(s, o1._lock)
+            o2._lock = ilock_like(s, o2._lock)
+            ei = base[1:4].astype(np.float32) + 0.5
+            fs = [lambda: values(o1.dataset), lambda: values(o2.dataset), lambda: values(inner.dataset)]
+            exp = [want(ei[0:2][:, ::2] * 2), want(ei[1:3][:, 1:5]), want(ei)]
+            li = o1
+            e = ei[0:2][:, ::2] * 2
+            n_calls = 1
         else:
             li = DaskLazyIndexer(x, (slice(1, 4), slice(None, None, 2)), transforms=[tr, tr2])
-        li._lock = ILock(s)
-
-        def f():
-            d = li.dataset
-            # every thread must see the fully transformed array (values, not only shape)
-            return (d.shape, str(d.dtype), np.asarray(d.compute(scheduler='synchronous')).tolist())
+            li._lock = ilock_like(s, li._lock)
+            e = expected(base[1:4][:, ::2])
+            if variant == 'mixed':
+                # first accesses through every public door: dataset, [idx] (two different ones), shape/dtype/len
+                def second_stage(idx):
+                    def f():
+                        with dask.config.set(scheduler='synchronous'):
+                            out = li[idx]
+                        return (out.shape, str(out.dtype), out.tolist())
+                    return f
+                i1, i2 = np.s_[1:3, ::2], np.s_[[2, 0], 1]
+                fs = [second_stage(i1), second_stage(i2),
+                      lambda: (tuple(li.shape), str(li.dtype), len(li)) + values(li.dataset)]
+                exp = [want(e[i1]), want(e[[2, 0]][:, 1]), (e.shape, str(e.dtype), len(e)) + want(e)]
+            else:
+                fs = [lambda: values(li.dataset)] * 3
+                exp = [want(e)] * 3
+            n_calls = 1
 
         def check(results):
-            want = (expect.shape, str(expect.dtype), expect.tolist())
             for tid, r in results.items():
-                if r[1] != want:
-                    return 'wrong_value; thread %d got dtype %s' % (tid, r[1][1])
-            if len(calls) != 1:
+                if r[1] != exp[tid]:
+                    got = r[1]
+                    what = 'dtype %s' % (got[1],) if got[:2] != exp[tid][:2] else 'values differ'
+                    return 'wrong_value; thread %d got %s' % (tid, what)
+            if len(calls) != n_calls:
                 return 'initialised_%d_times' % len(calls)
-            if not np.array_equal(li.dataset.compute(), expect):
+            if not np.array_equal(li.dataset.compute(scheduler='synchronous'), e):
                 return 'wrong_array'
             return None
-        return [f, f, f], check
+        return fs, check
     return make
 
 
 def site_spw():
     def make(s):
         w = SpectralWindow(1284.0, 2.0, 8, sideband=1)
-        w._channel_freqs_lock = ILock(s)
+        w._channel_freqs_lock = ilock_like(s, w._channel_freqs_lock)
         expect = 1284.0 + 2.0 * (np.arange(8) - 4)
 
         def f():
@@ -177,11 +502,26 @@ def site_spw():
     return make
 
 
+class LazyTimestamps:
+    """Timestamps that are materialised on first use (`timestamps[:]`), as the data sets provide them."""
+
+    def __init__(self, ts, log):
+        self.ts, self.log = ts, log
+
+    def __getitem__(self, idx):
+        self.log.append(idx)
+        return self.ts[idx]
+
+    def __len__(self):
+        return len(self.ts)
+
+
 def site_sensor(kind):
     ts = np.arange(8.0)
 
     def make(s):
         calls = []
+        tlog = []
 
         def virt(cache, name, **kw):
             calls.append(name)
@@ -189,11 +529,24 @@ def site_sensor(kind):
             out = base * 2
             cache[name] = out
             return out
+
+        def virt2(cache, name, **kw):
+            calls.append(name)
+            out = cache.get('double/a') + cache.get('b')
+            cache[name] = out
+            return out
         raw = {'a': SimpleSensorGetter('a', np.array([0.0, 7.0]), np.array([10.0, 17.0])),
-               'b': SimpleSensorGetter('b', np.array([0.0, 7.0]), np.array([0.0, 70.0]))}
-        cache = SensorCache(raw, ts, 1.0, keep=np.ones(8, bool), virtual={'double/a': virt}, aliases={'alias': 'a'})
-        cache._lock = ILock(s, reentrant=(type(cache._lock).__name__ == 'RLock'))
+               'b': SimpleSensorGetter('b', np.array([0.0, 7.0]), np.array([0.0, 70.0])),
+               'x/pos': SimpleSensorGetter('x/pos', np.array([0.5, 7.5]), np.array([5.0, 12.0])),
+               'y/pos': SimpleSensorGetter('y/pos', np.array([0.5, 7.5]), np.array([50.0, 120.0]))}
+        props = {'*/pos': {'time_offset': -0.5}, '*': {}} if kind == 'props' else None
+        keep = np.array([1, 0, 1, 1, 0, 0, 1, 1], bool) if kind == 'select' else np.ones(8, bool)
+        stamps = LazyTimestamps(ts, tlog) if kind in ('props', 'select', 'virtual2') else ts
+        cache = SensorCache(raw, stamps, 1.0, keep=keep, props=props,
+                            virtual={'double/a': virt, 'sum/ab': virt2}, aliases={'alias': 'a'})
+        cache._lock = ilock_like(s, cache._lock)
         exp_a = 10.0 + ts
+        exp_b = 10.0 * ts
         if kind == 'same':
             fs = [lambda: cache.get('a'), lambda: cache.get('a'), lambda: cache.get('a')]
             exp = [exp_a, exp_a, exp_a]
@@ -203,25 +556,43 @@ def site_sensor(kind):
         elif kind == 'virtual':
             fs = [lambda: cache.get('double/a'), lambda: cache.get('double/a'), lambda: cache.get('a')]
             exp = [2 * exp_a, 2 * exp_a, exp_a]
+        elif kind == 'virtual2':
+            # a virtual sensor built from another virtual sensor: three levels of the re-entrant lock
+            fs = [lambda: cache.get('sum/ab'), lambda: cache.get('double/a'), lambda: cache.get('sum/ab')]
+            exp = [2 * exp_a + exp_b, 2 * exp_a, 2 * exp_a + exp_b]
+        elif kind == 'props':
+            # first extraction of DIFFERENT sensors: the shared property map is updated and scanned by each
+            fs = [lambda: cache.get('x/pos'), lambda: cache.get('y/pos'), lambda: cache.get('b')]
+            exp = [5.0 + ts, 50.0 + 10.0 * ts, exp_b]
+        elif kind == 'select':
+            fs = [lambda: cache['a'], lambda: cache.get('a', select=True), lambda: cache.get('b')[keep]]
+            exp = [exp_a[keep], exp_a[keep], exp_b[keep]]
         else:   # mixed mapping operations
             def setter():
                 cache['c'] = np.full(8, 3.0)
                 return cache.get('c')
             fs = [lambda: cache.get('b'), setter, lambda: ('a' in cache, cache.get('a'))[1]]
-            exp = [10.0 * ts, np.full(8, 3.0), exp_a]
+            exp = [exp_b, np.full(8, 3.0), exp_a]
 
         def check(results):
             for tid, e in enumerate(exp):
-                if not np.array_equal(np.asarray(results[tid][1]), e):
+                got = np.asarray(results[tid][1])
+                if got.shape != e.shape or not np.array_equal(got, e):
                     return 'wrong_value; thread %d' % tid
             if kind == 'virtual' and len(calls) > 2:
                 return 'virtual_created_%d_times' % len(calls)
+            if kind == 'virtual2' and (calls.count('sum/ab') > 2 or calls.count('double/a') > 3):
+                return 'virtual_created_%d_times' % len(calls)
+            # the cache must end up holding the single-thread values
+            for nm, e in (('a', exp_a), ('b', exp_b)):
+                if nm in cache._raw and isinstance(cache._raw[nm], np.ndarray) and not np.array_equal(cache._raw[nm], e):
+                    return 'cache_holds_wrong_value; %s' % nm
             return None
         return fs, check
     return make
 
 
-def site_pool():
+def site_pool(ctxmgr):
     def make(s):
         made = []
 
@@ -229,21 +600,35 @@ def site_pool():
             made.append(object())
             return made[-1]
         pool = _Pool(factory)
-        pool._lock = ILock(s)
+        pool._lock = ilock_like(s, pool._lock)
         held = {}
         clashes = []
 
+        from katdal import chunkstore_s3
+
+        def use(item):
+            # the borrower works with the item for a while: a few traced lines (= pre-emption points) in between
+            if id(item) in held:
+                clashes.append(id(item))
+            held[id(item)] = True
+            chunkstore_s3._connect_read_tuple((1, 2))
+            if held.get(id(item)) is not True:
+                clashes.append(id(item))
+            held.pop(id(item), None)
+
         def f():
-            got = []
+            n = 0
             for _ in range(2):
-                item = pool.get()
-                if id(item) in held:
-                    clashes.append(id(item))
-                held[id(item)] = True
-                got.append(item)
-                del held[id(item)]
-                pool.put(item)
-            return len(got)
+                if ctxmgr:
+                    with pool() as item:
+                        use(item)
+                        n += 1
+                else:
+                    item = pool.get()
+                    use(item)
+                    n += 1
+                    pool.put(item)
+            return n
 
         def check(results):
             if clashes:
@@ -255,54 +640,541 @@ def site_pool():
     return make
 
 
-def threaded_vs_sync(ctx):
-    x = v4.build_v4(T=6, F=8, seed=ctx.seed, chunks={'correlator_data': (2, 4, 6), 'flags': (3, 8, 4), 'weights': (1, 2, 12)})
-    try:
+_s3 = {}
+
+
+def s3_env():
+    if 's' not in _s3:
+        import logging
+        from fixtures.s3mini import MiniS3
+        from katdal.chunkstore import npy_header_and_body
+        logging.getLogger('urllib3').setLevel(logging.CRITICAL)
+        chunks = {}
+        objects = {}
+        for k in range(3):
+            a = (np.arange(12, dtype=np.int32).reshape(3, 4) + 100 * k)
+            hdr, body = npy_header_and_body(a)
+            objects['/bkt/arr/%05d_00000.npy' % (3 * k)] = hdr + body.tobytes()
+            chunks[k] = a
+        _s3['s'] = MiniS3(objects)
+        _s3['chunks'] = chunks
+    return _s3['s'], _s3['chunks']
+
+
+def site_s3():
+    from katdal.chunkstore_s3 import S3ChunkStore
+
+    def make(s):
+        srv, chunks = s3_env()
+        store = S3ChunkStore(srv.url, timeout=(2, 5), retries=0)
+        pool = store._session_pool
+        pool._lock = ilock_like(s, pool._lock)
+        inuse = {}
+        clashes = []
+        made = []
+        inner = pool._factory
+
+        def factory():
+            session = inner()
+            made.append(session)
+            sid = len(made)
+            orig = session.request
+
+            def request(*a, **k):
+                me = s.current
+                if inuse.get(sid) is not None and inuse[sid] != me:
+                    clashes.append((sid, inuse[sid], me))
+                inuse[sid] = me
+                resp = orig(*a, **k)
+                close = resp.close
+
+                def closing():
+                    if inuse.get(sid) == me:
+                        inuse[sid] = None
+                    close()
+                resp.close = closing
+                return resp
+            session.request = request
+            return session
+        pool._factory = factory
+
+        def getter(k):
+            def f():
+                out = []
+                for j in (k, (k + 1) % 3):
+                    out.append(store.get_chunk('bkt/arr', (slice(3 * j, 3 * j + 3), slice(0, 4)), np.int32).tolist())
+                return out
+            return f
+
+        def check(results):
+            for tid in range(3):
+                want = [chunks[tid].tolist(), chunks[(tid + 1) % 3].tolist()]
+                if results[tid][1] != want:
+                    return 'wrong_value; thread %d' % tid
+            if clashes:
+                return 'session_used_by_two_requests; %r' % (clashes[0],)
+            if len(pool._pool) != len(made) or len({id(x) for x in pool._pool}) != len(made):
+                return 'sessions_not_conserved; pool=%d made=%d' % (len(pool._pool), len(made))
+            return None
+        return [getter(0), getter(1), getter(2)], check
+    return make
+
+
+LOAD_FILES = ['katdal/lazy_indexer.py', 'katdal/chunkstore.py', 'katdal/chunkstore_npy.py', 'katdal/vis_flags_weights.py']
+_ld = {}
+
+
+def load_lines_env(seed):
+    if 'x' not in _ld:
+        x = guarded(lambda: v4.build_v4(T=6, F=8, seed=seed, need_weights_power_scale=True,
+                                        chunks={'correlator_data': (2, 4, 6), 'flags': (3, 8, 4), 'weights': (1, 2, 12)}), 150)
+        _ld['x'] = x
         d = x.d
         d.select(dumps=slice(1, 6), channels=slice(1, 7))
         with dask.config.set(scheduler='synchronous'):
-            ref = [np.asarray(d.vis[:]), np.asarray(d.weights[:]), np.asarray(d.flags[:])]
-        for workers in (1, 2, 4, 8):
-            with dask.config.set(scheduler='threads', num_workers=workers):
-                got = [np.asarray(d.vis[:]), np.asarray(d.weights[:]), np.asarray(d.flags[:])]
-                joint = DaskLazyIndexer.get([d.vis, d.weights, d.flags], np.s_[:])
-            for nm, a, b, c in zip(('vis', 'weights', 'flags'), ref, got, joint):
-                if not (np.array_equal(a, b) and np.array_equal(a, c)):
-                    ctx.disagree('what=threaded_load;array=%s' % nm, dict(workers=workers), 'differs', None,
-                                 'multi-threaded dask load differs from the single-threaded load')
-            ctx.note_case(('load', workers), sample=None)
-            ctx.count('threaded_loads')
-    finally:
-        v4.cleanup(x)
+            _ld['exp'] = guarded(lambda: [d.vis[0:2], d.flags[1:3], (d.flags[2:4], d.weights[3], d.vis[3])])
+    return _ld['x'], _ld['exp']
+
+
+def site_load_lines(seed):
+    """The vis / flags / weights indexers of a v4 data set (flags is an indexer over an indexer), freshly selected,
+    indexed from three threads: first accesses of shared indexers + the whole load path at line granularity."""
+    def make(s):
+        x, exp = load_lines_env(seed)
+        d = x.d
+        d.select(dumps=slice(1, 6), channels=slice(1, 7))
+        for nm in ('_vis', '_weights', '_raw_flags', '_flags', '_excision'):
+            ind = getattr(d, nm, None)
+            if isinstance(ind, DaskLazyIndexer):
+                ind._lock = ilock_like(s, ind._lock)
+        fs = [lambda: d.vis[0:2], lambda: d.flags[1:3], lambda: (d.flags[2:4], d.weights[3], d.vis[3])]
+
+        def same(a, b):
+            if isinstance(a, tuple):
+                return all(same(p, q) for p, q in zip(a, b))
+            return a.shape == b.shape and a.dtype == b.dtype and np.array_equal(a, b)
+
+        def check(results):
+            for tid in range(3):
+                if not same(results[tid][1], exp[tid]):
+                    return 'wrong_value; thread %d' % tid
+            return None
+        return fs, check
+    return make
+
+
+def run_load_lines(ctx):
+    try:
+        load_lines_env(ctx.seed)
+    except Hang as e:
+        ctx.disagree('what=single_thread_load;symptom=hangs', dict(site='load_lines', schedule=[]), str(e), None,
+                     'indexing vis/flags/weights of a v4 data set from ONE thread does not return')
+        return
+    with dask.config.set(scheduler='synchronous'):
+        run_site(ctx, 'load_lines', site_load_lines(ctx.seed), LOAD_FILES, n=ctx.scale(10, 120), length=1500, cap=ctx.scale(30, 600))
+
+
+def load_lines_cleanup():
+    if 'x' in _ld:
+        v4.cleanup(_ld.pop('x'))
+        _ld.clear()
+
+
+# ------------------------------------------------------------------------------------------------ loads
+
+FIXTURES = {
+    'even': dict(T=6, F=8, chunks={'correlator_data': (2, 4, 6), 'flags': (3, 8, 4), 'weights': (1, 2, 12)},
+                 select=dict(dumps=[1, 6], channels=[1, 7])),
+    'odd_scaled': dict(T=7, F=9, need_weights_power_scale=True,
+                       chunks={'correlator_data': (2, 4, 5), 'flags': (3, 5, 12), 'weights': (3, 4, 7),
+                               'weights_channel': (4, 3)},
+                       select=dict(dumps=[0, 7], channels=[0, 9])),
+    'lost': dict(T=5, F=6, need_weights_power_scale=True,
+                 chunks={'correlator_data': (2, 3, 6), 'flags': (5, 2, 12), 'weights': (2, 6, 4)},
+                 lose=[['sdp_l0', 'correlator_data', [1, 0, 1]], ['sdp_l0', 'weights', [0, 0, 2]],
+                       ['sdp_l0', 'flags', [0, 1, 0]]],
+                 select=dict(dumps=[0, 5], channels=[1, 6])),
+}
+FIXTURES['cal'] = dict(T=5, F=6, cal=True, chunks={'correlator_data': (2, 4, 12), 'flags': (3, 3, 12), 'weights': (5, 2, 12)},
+                       select=dict(dumps=[0, 5], channels=[0, 6]))
+INDICES = {'all': np.s_[:], 'fancy': np.s_[::2, [0, 3, 4], 1:], 'dump': np.s_[2]}
+
+
+def digest(a):
+    a = np.ascontiguousarray(a)
+    return hashlib.sha1(a.tobytes() + str((a.shape, a.dtype)).encode()).hexdigest()[:16]
+
+
+class ReadLog:
+    """Wraps store.get_chunk: which chunks were read, what they contained when handed out, and the arrays themselves
+    (to see afterwards whether some task wrote into what it was given)."""
+
+    def __init__(self, store):
+        self.store = store
+        self.inner = store.get_chunk
+        self.reads = []
+        store.get_chunk = self
+
+    def __call__(self, array_name, slices, dtype):
+        chunk = self.inner(array_name, slices, dtype)
+        key = (array_name, tuple((s.start, s.stop) for s in slices))
+        self.reads.append((key, digest(chunk), chunk))
+        return chunk
+
+    def take(self):
+        out, self.reads = self.reads, []
+        return out
+
+    def remove(self):
+        del self.store.get_chunk
+
+
+def build_fixture(name, seed):
+    """(under a hang guard: opening a data set with applycal instantiates virtual sensors, which a broken sensor-cache
+    lock turns into a self-deadlock of the calling thread)"""
+    return guarded(lambda: _build_fixture(name, seed), 150)
+
+
+def _build_fixture(name, seed):
+    p = dict(FIXTURES[name])
+    sel = p.pop('select')
+    lose = [(a, b, tuple(c)) for a, b, c in p.pop('lose', [])]
+    if p.pop('cal', False):
+        # a calibration stream with G (per dump), B (per channel) and K products: applycal transforms in the graph
+        from fixtures import c13cal
+        import math
+        r = random.Random(seed)
+        F, ants = p['F'], ['m000', 'm001']
+
+        def cval():
+            m, ph = r.uniform(0.5, 2.0), r.uniform(-math.pi, math.pi)
+            return [m * math.cos(ph), m * math.sin(ph)]
+        products = {'G': [[dd, [[cval() for _ in ants] for _ in range(2)]] for dd in (-1, 2)],
+                    'B': [[-1, [[[cval() for _ in ants] for _ in range(2)] for _ in range(F)]]],
+                    'K': [[0, [[r.uniform(-2e-9, 2e-9) for _ in ants] for _ in range(2)]]]}
+        chan_w = 1048576.0
+        cal = dict(antlist=ants, pol_ordering=['v', 'h'], center_freq=1284e6, bandwidth=F * chan_w, n_chans=F,
+                   products=products)
+        p.update(bandwidth=F * chan_w, center_freq=1284e6, telstate_hook=c13cal.cal_hook(cal),
+                 archived_override=['sdp_l0', 'cal'], open_kwargs=dict(applycal=['l1.G', 'l1.B', 'l1.K']))
+    x = v4.build_v4(seed=seed, lose=lose, **p)
+    x.d.select(dumps=slice(*sel['dumps']), channels=slice(*sel['channels']))
+    return x
+
+
+def do_load(d, idx, joint):
+    """One load: the three arrays one by one, or jointly (twice the same array included: DaskLazyIndexer.get copies)."""
+    if joint:
+        out = DaskLazyIndexer.get([d.vis, d.weights, d.flags, d.vis], idx)
+        return [np.asarray(a) for a in out]
+    return [np.asarray(d.vis[idx]), np.asarray(d.weights[idx]), np.asarray(d.flags[idx])]
+
+
+def scheduler_of(desc):
+    if desc['type'] == 'model':
+        return ModelScheduler(random.Random(desc['seed']), desc['workers'], desc['policy'], desc['late'])
+    return None
+
+
+_replayed = [0]
+
+
+def load_case(ctx, x, fixture, iname, joint, desc, ref, ref_reads, rl, seed):
+    """Run one load of data set x.d under the scheduler `desc` and compare with the synchronous reference."""
+    d = x.d
+    idx = INDICES[iname]
+    case = dict(kind='load', fixture=fixture, seed=seed, index=iname, joint=joint, sched=desc)
+    names = ('vis', 'weights', 'flags', 'vis_again')
+    ms = scheduler_of(desc)
+    rec = Recorder()
+    try:
+        if ms is not None:
+            with dask.config.set(scheduler=ms):
+                got = guarded(lambda: do_load(d, idx, joint))
+        else:
+            with dask.config.set(scheduler='threads', num_workers=desc['workers']), rec:
+                got = guarded(lambda: do_load(d, idx, joint))
+    except Exception as e:   # noqa
+        ctx.disagree('what=threaded_load;sched=%s;symptom=raises_%s' % (desc['type'], type(e).__name__), case,
+                     repr(e)[:200], None, 'a load under a multi-worker schedule raised; the single-threaded load does not')
+        rl.take()
+        return
+    reads = rl.take()
+    for nm, a, b in zip(names, ref, got):
+        if a.shape != b.shape or a.dtype != b.dtype or not np.array_equal(a, b, equal_nan=(a.dtype.kind in 'fc')):
+            where = np.argwhere(np.asarray(a != b))[:1].tolist() if a.shape == b.shape else 'shape'
+            ctx.disagree('what=threaded_load;sched=%s;array=%s' % (desc['type'], nm), dict(case, first_diff=where),
+                         'differs', None, 'multi-threaded dask load differs from the single-threaded load',
+                         spec='arrays identical to the synchronous load')
+    # chunk reads: the same chunks, each with the same content as in the single-threaded load (idempotent reads)
+    want = {}
+    for key, dg, _ in ref_reads:
+        want.setdefault(key, dg)
+    for key, dg, chunk in reads:
+        if key not in want:
+            ctx.disagree('what=chunk_reads;symptom=extra_chunk', dict(case, chunk=list(map(str, key))), key, None,
+                         'a multi-threaded load read a chunk the single-threaded load does not read')
+        elif want[key] != dg:
+            ctx.disagree('what=chunk_reads;symptom=content_differs', dict(case, chunk=list(map(str, key))), dg, want[key],
+                         'reading the same chunk again returned different content (reads are not idempotent)')
+        elif not isinstance(chunk, np.ndarray) or digest(chunk) != dg:
+            ctx.extra['chunks_written_into_after_read'] = ctx.extra.get('chunks_written_into_after_read', 0) + 1
+    if sorted(k for k, _, _ in reads) != sorted(k for k, _, _ in ref_reads):
+        ctx.disagree('what=chunk_reads;symptom=different_multiset', case, len(reads), len(ref_reads),
+                     'the multi-threaded load does not read each chunk as often as the single-threaded load')
+    # the schedule that was executed is a schedule of the theorem: replay it in the extracted model
+    mcases = []
+    if ms is not None:
+        for r in ms.runs:
+            mcases.append((r['graph'], r['events'], r['shadow']))
+    else:
+        for r in rec.runs:
+            g, ev, problems = rec.model_case(r)
+            if problems:
+                ctx.disagree('what=schedule_replay;symptom=unknown_dependency', case, problems[:3], None,
+                             'recorded dask run does not fit the task-graph model', kind='tie')
+            mcases.append((g, ev, None))
+    # (large graphs: every fourth run only -- the extracted machine indexes tasks by unary numbers)
+    _replayed[0] += 1
+    mcases = [m for m in mcases if len(m[0]) <= 300 or _replayed[0] % 4 == 0]
+    if ctx.model_ok and not ctx.searching and mcases:
+        outs = ctx.model([[203, [g, ev]] for g, ev, _ in mcases])
+        for (g, ev, shadow), o in zip(mcases, outs):
+            if o == [-999]:
+                continue
+            wf, enabled, alldone, agree, cache, seqv = o
+            if not (wf and enabled and alldone and agree):
+                ctx.disagree('what=schedule_replay;sched=%s;symptom=wf%d_enabled%d_done%d_agree%d'
+                             % (desc['type'], wf, enabled, alldone, agree), dict(case, tasks=len(g), events=len(ev)),
+                             [wf, enabled, alldone, agree], [1, 1, 1, 1],
+                             'the schedule the real scheduler executed is not a complete schedule of the model', kind='tie')
+            elif shadow is not None and [c[0] if c else None for c in cache] != shadow:
+                ctx.disagree('what=schedule_replay;symptom=shadow_values', dict(case, tasks=len(g)), shadow[:8],
+                             [c[0] if c else None for c in cache][:8],
+                             'dependency values captured by the real run differ from the model run', kind='tie')
+            ctx.traces_validated += 1
+    ctx.note_case(('load', fixture, iname, joint, desc['type'], desc.get('policy'), desc['workers'], desc.get('late'),
+                   tuple(map(tuple, ms.runs[-1]['events'][:80])) if ms is not None and ms.runs else None),
+                  nontrivial=desc['workers'] > 1,
+                  sample=dict(fixture=fixture, index=iname, joint=joint, sched=desc))
+    ctx.count('load:%s' % desc['type'])
+    ctx.count('load_fixture=%s' % fixture)
+
+
+def store_writes_case(ctx, x, fixture, iname):
+    """The cells DaskLazyIndexer.get's output stage writes (one region per chunk of each kept array, lock=False): they are
+    pairwise distinct, so that the theorem applies; the model confirms order independence on a random permutation."""
+    d = x.d
+    try:
+        kept = guarded(lambda: [dask_getitem(a.dataset, INDICES[iname]) for a in (d.vis, d.weights, d.flags)], 30)
+    except Hang:
+        return
+    writes = []
+    offset = 0
+    for arr in kept:
+        size = int(np.prod(arr.shape)) if arr.shape else 1
+        pos = np.arange(size).reshape(arr.shape) + offset
+        starts = [np.cumsum((0,) + c) for c in arr.chunks]
+        for ci, block in enumerate(np.ndindex(*[len(c) for c in arr.chunks])):
+            region = tuple(slice(int(st[b]), int(st[b + 1])) for st, b in zip(starts, block))
+            for p in pos[region].ravel().tolist():
+                writes.append([p, (ci * 7 + 1) % 251])
+        offset += size
+    positions = [w[0] for w in writes]
+    nodup = len(set(positions)) == len(positions)
+    covered = set(positions) == set(range(offset))
+    a = b = None
+    if len(writes) <= 450 and ctx.model_ok and not ctx.searching:
+        # small enough for the extracted model (positions are unary numbers there): it must agree with the direct count
+        perm = list(range(len(writes)))
+        ctx.rng.shuffle(perm)
+        out = ctx.model([[204, [writes, perm, offset]]])[0]
+        if out != [-999]:
+            m_nodup, a, b = out
+            if bool(m_nodup) != nodup:
+                ctx.disagree('what=store_writes;symptom=model_disagrees', dict(kind='store_writes', fixture=fixture, index=iname),
+                             nodup, m_nodup, 'distinctness of the written cells: model and direct count differ', kind='tie')
+    if not nodup or a != b or not covered:
+        ctx.disagree('what=store_writes;symptom=%s' % ('overlap' if not nodup else 'gap' if not covered else 'order_dependent'),
+                     dict(kind='store_writes', fixture=fixture, index=iname), [nodup, covered], [1, 1],
+                     'the chunk regions written by the unsynchronised output stage overlap or leave gaps')
+    ctx.note_case(('store_writes', fixture, iname), nontrivial=True)
+    ctx.count('store_writes')
+
+
+def schedulers_for(ctx, rng):
+    descs = [dict(type='threads', workers=w) for w in (1, 2, 3, 4, 8, 16)]
+    for policy in ('random', 'greedy', 'fifo', 'lifo', 'reverse'):
+        for late in (False, True):
+            descs.append(dict(type='model', policy=policy, late=late, workers=rng.choice((1, 2, 3, 5)),
+                              seed=rng.randrange(2 ** 30)))
+    for _ in range(ctx.scale(2, 30)):
+        descs.append(dict(type='model', policy='random', late=rng.random() < 0.5, workers=rng.randint(2, 6),
+                          seed=rng.randrange(2 ** 30)))
+    return descs
+
+
+def threaded_vs_sync(ctx):
+    rng = ctx.rng
+    for fixture in FIXTURES:
+        seed = rng.randrange(2 ** 20)
+        try:
+            x = build_fixture(fixture, seed)
+        except Hang as e:
+            ctx.disagree('what=single_thread_load;symptom=open_hangs',
+                         dict(kind='load', fixture=fixture, seed=seed, index='all', joint=False,
+                              sched=dict(type='threads', workers=1)), str(e), None,
+                         'opening and selecting a v4 data set from ONE thread does not return')
+            continue
+        rl = ReadLog(x.store)
+        try:
+            combos = [('all', False), ('all', True), ('fancy', True)] if ctx.tier != 'thorough' else \
+                [(i, j) for i in INDICES for j in (False, True)]
+            for iname, joint in combos:
+                try:
+                    with dask.config.set(scheduler='synchronous'):
+                        ref = guarded(lambda: do_load(x.d, INDICES[iname], joint))
+                except Hang as e:
+                    ctx.disagree('what=single_thread_load;symptom=hangs',
+                                 dict(kind='load', fixture=fixture, seed=seed, index=iname, joint=joint,
+                                      sched=dict(type='threads', workers=1)), str(e), None,
+                                 'the single-threaded load of a v4 data set does not return')
+                    return
+                ref_reads = rl.take()
+                descs = schedulers_for(ctx, rng)
+                if ctx.tier != 'thorough' and not (iname == 'all' and joint):
+                    descs = [q for q in descs if q['type'] == 'model'][::2] + descs[1:4:2]
+                for desc in descs:
+                    load_case(ctx, x, fixture, iname, joint, desc, ref, ref_reads, rl, seed)
+                store_writes_case(ctx, x, fixture, iname)
+            store_writes_case(ctx, x, fixture, 'dump')
+        finally:
+            rl.remove()
+            v4.cleanup(x)
+
+
+# ------------------------------------------------------------------------------------------------ driver
+
+def site_table(ctx):
+    t = {'dask': (site_dask('plain'), ['katdal/lazy_indexer.py']),
+         'dask_mixed': (site_dask('mixed'), ['katdal/lazy_indexer.py']),
+         'dask_nested': (site_dask('nested'), ['katdal/lazy_indexer.py']),
+         'dask_shared_inner': (site_dask('shared_inner'), ['katdal/lazy_indexer.py']),
+         'spw': (site_spw(), ['katdal/spectral_window.py']),
+         'pool': (site_pool(False), ['katdal/chunkstore_s3.py']),
+         'pool_ctx': (site_pool(True), ['katdal/chunkstore_s3.py']),
+         's3': (site_s3(), ['katdal/chunkstore_s3.py']),
+         'load_lines': (site_load_lines(ctx.seed), LOAD_FILES)}
+    for k in ('same', 'alias', 'virtual', 'virtual2', 'props', 'select', 'mixed'):
+        t['sensor_' + k] = (site_sensor(k), ['katdal/sensordata.py'])
+    return t
+
+
+def _timed(ctx, name, t0):
+    import time
+    ctx.extra.setdefault('seconds', {})[name] = round(time.time() - t0, 1)
 
 
 def run(ctx):
+    import time
+    t0 = time.time()
+    for f in ctx.findings:
+        w = f.get('witness')
+        if w:
+            replay_case(ctx, w)
     model_cross_check(ctx)
-    run_site(ctx, 'dask', site_dask(False), ['katdal/lazy_indexer.py'])
-    run_site(ctx, 'dask_nested', site_dask(True), ['katdal/lazy_indexer.py'])
-    run_site(ctx, 'spw', site_spw(), ['katdal/spectral_window.py'])
-    for kind in ('same', 'alias', 'virtual', 'mixed'):
-        run_site(ctx, 'sensor_' + kind, site_sensor(kind), ['katdal/sensordata.py'])
-    run_site(ctx, 'pool', site_pool(), ['katdal/chunkstore_s3.py'])
+    pool_histories(ctx)
+    _timed(ctx, 'models', t0)
+    table = site_table(ctx)
+    for site, (make, files) in table.items():
+        t1 = time.time()
+        if site == 'load_lines':
+            continue
+        if site == 's3':
+            run_site(ctx, site, make, files, n=ctx.scale(12, 100), length=400, cap=ctx.scale(24, 400))
+        else:
+            run_site(ctx, site, make, files)
+        _timed(ctx, site, t1)
+    t1 = time.time()
+    try:
+        run_load_lines(ctx)
+    finally:
+        load_lines_cleanup()
+    _timed(ctx, 'load_lines', t1)
+    t1 = time.time()
     threaded_vs_sync(ctx)
+    _timed(ctx, 'loads', t1)
+    if 's' in _s3:
+        _s3.pop('s').close()
+
+
+def replay_load(ctx, case, kind):
+    if kind == 'store_writes':
+        x = build_fixture(case['fixture'], case.get('seed', 0))
+        try:
+            store_writes_case(ctx, x, case['fixture'], case['index'])
+        finally:
+            v4.cleanup(x)
+        return
+    if kind == 'load':
+        x = build_fixture(case['fixture'], case['seed'])
+        rl = ReadLog(x.store)
+        try:
+            try:
+                with dask.config.set(scheduler='synchronous'):
+                    ref = guarded(lambda: do_load(x.d, INDICES[case['index']], case['joint']))
+            except Hang as e:
+                ctx.disagree('what=single_thread_load;symptom=hangs', case, str(e), None,
+                             'the single-threaded load of a v4 data set does not return')
+                return
+            ref_reads = rl.take()
+            reps = 1 if case['sched']['type'] == 'model' else 10
+            for _ in range(reps):
+                load_case(ctx, x, case['fixture'], case['index'], case['joint'], case['sched'], ref, ref_reads, rl, case['seed'])
+        finally:
+            rl.remove()
+            v4.cleanup(x)
+        return
+
+
+def replay_case(ctx, case):
+    kind = case.get('kind', 'site')
+    if kind == 'pool_history':
+        pool_history_case(ctx, case['ops'])
+        return
+    if kind == 'model':
+        out = ctx.model([[20, [case['body'], case['threads'], case['schedule'], 1]]])[0]
+        states, ncomp = out
+        if any(s[0] == 3 or (s[0] == 2 and s[1] != LOCKED_SAFE) for s in states) or ncomp > 1:
+            ctx.disagree('what=model_locked_unsafe;site=%s' % case.get('site'), case, None, out, 'replayed model schedule is unsafe')
+        ctx.note_case(('model', 'replay'))
+        return
+    if kind in ('store_writes', 'load'):
+        try:
+            replay_load(ctx, case, kind)
+        except Hang as e:
+            ctx.disagree('what=single_thread_load;symptom=open_hangs', case, str(e), None,
+                         'opening and selecting a v4 data set from ONE thread does not return')
+        return
+    site = case.get('site', 'dask')
+    make, files = site_table(ctx)[site]
+    try:
+        if site == 'load_lines':
+            try:
+                load_lines_env(ctx.seed)
+            except Hang as e:
+                ctx.disagree('what=single_thread_load;symptom=hangs', case, str(e), None,
+                             'indexing vis/flags/weights of a v4 data set from ONE thread does not return')
+                return
+            with dask.config.set(scheduler='synchronous'):
+                run_one(ctx, site, make, files, case.get('schedule', []), replaying=True)
+        else:
+            run_one(ctx, site, make, files, case.get('schedule', []), replaying=True)
+    finally:
+        load_lines_cleanup()
+        if 's' in _s3:
+            _s3.pop('s').close()
 
 
 def replay(ctx, doc):
-    case = doc.get('case', {})
-    site = case.get('site', 'dask')
-    makers = {'dask': (site_dask(False), ['katdal/lazy_indexer.py']), 'dask_nested': (site_dask(True), ['katdal/lazy_indexer.py']),
-              'spw': (site_spw(), ['katdal/spectral_window.py']), 'pool': (site_pool(), ['katdal/chunkstore_s3.py'])}
-    for k in ('same', 'alias', 'virtual', 'mixed'):
-        makers['sensor_' + k] = (site_sensor(k), ['katdal/sensordata.py'])
-    make, files = makers[site]
-    s = Sched(files, case.get('schedule', []))
-    funcs, check = make(s)
-    results, trace = s.run(funcs)
-    problem = None
-    for tid in range(len(funcs)):
-        if results.get(tid, ('x',))[0] != 'ok':
-            problem = 'thread %d: %s' % (tid, results.get(tid))
-    problem = problem or check(results)
-    if problem:
-        ctx.disagree('site=%s;replay' % site, case, problem, None, 'replayed schedule fails')
-    ctx.note_case((site, 'replay'))
+    replay_case(ctx, doc.get('case', {}))
